@@ -34,6 +34,8 @@ import DafRel.Lemmas.SqlRunSound
 
 namespace DafRel.Props.C02
 
+variable {I : NodeInv}
+
 open DafRel
 
 theorem sql_tree_building_preserves_rows (σ : Leaves) (st : Store) (fuel : Nat) (op : UOp) (t : Rel) (res : Res)
@@ -95,14 +97,14 @@ nesting of subqueries, joins and UNIONs - whose leaves and processed markers hol
 query evaluates, under the list semantics of SQL, to exactly the rows - values, multiplicity, order - of the
 reference semantics of the tree.  Every recursion budget. -/
 theorem emitted_select_returns_reference_rows (σ : Leaves) (s : SqlState) (fuel : Nat) (S : Rel) (ctr : Nat)
-    (q : Query) (c : Nat) (hg : Good σ S) (hs : S.isSelect = true) (hrd : S.SqlReady s s.tables σ)
+    (q : Query) (c : Nat) (hg : Good I σ S) (hs : S.isSelect = true) (hrd : S.SqlReady s s.tables σ)
     (h : compileSelect s fuel S ctr = .ok (q, c)) (hdup : q.hasDup = false) :
     (Query.eval s.tables q).rows = sem σ S :=
   (compile_sound σ s fuel).select S ctr q c hg hs hrd h hdup
 
 /-- ... and so does the payload `to_payload` builds for any Good tree (used as a subquery / join operand). -/
 theorem emitted_payload_stands_for_reference_rows (σ : Leaves) (s : SqlState) (fuel : Nat) (t : Rel) (ctr : Nat)
-    (p : SqlPayload) (c : Nat) (hg : Good σ t) (hrd : t.SqlReady s s.tables σ)
+    (p : SqlPayload) (c : Nat) (hg : Good I σ t) (hrd : t.SqlReady s s.tables σ)
     (h : toPayload s fuel t ctr = .ok (p, c)) (hdup : From.hasDup p.frm = false) (hnd : (From.names p.frm).Nodup) :
     sem σ t = (payEnvs s.tables p).map (rowOf p.avail) :=
   ((compile_sound σ s fuel).payload t ctr p c hg hrd h hdup hnd).rows_eq
@@ -117,6 +119,18 @@ theorem to_executable_returns_reference_rows (σ : Leaves) (s : SqlState) (st : 
     (hrun : sqlRun s st r = .inr (out, b)) : out.rows = sem σ r :=
   sqlRun_sound σ s st r out b hwf htr hraw hready hrun
 
+/-- The same with the semantic hypothesis on the INPUT: if the payloads held by the leaves and processed markers
+of the tree the user built stand for their rows (and the fresh allocation id 0 holds no payload), then conform,
+compile, evaluate returns the rows of direct evaluation - the only thing asked of the conformed tree is the
+decidable check.  (`treeBuild_sound` is parametric in a predicate on atoms and Selects: the engine never invents a
+leaf, and the Selects it creates are fresh.) -/
+theorem to_executable_returns_reference_rows_of_faithful_input (σ : Leaves) (s : SqlState) (st : Store) (r : Rel)
+    (out : EvalOut) (b : Bool) (hwf : r.WF) (htr : r.Truthful σ) (hraw : r.RawSql)
+    (hF : r.Faithful s s.tables σ) (h0 : s.payload 0 = none)
+    (hready : ∀ c, conform st defaultFuel r = .ok c → (c.get r).structReady s = true)
+    (hrun : sqlRun s st r = .inr (out, b)) : out.rows = sem σ r :=
+  sqlRun_sound_input σ s st r out b hwf htr hraw hF h0 hready hrun
+
 /-- ... and for every construction history inside one SQL engine: the database returns the rows of the direct
 evaluation of the operation sequence. -/
 theorem sql_history_executes_to_direct_rows (σ : Leaves) (s : SqlState) (st : Store) (eng : Engine)
@@ -128,6 +142,16 @@ theorem sql_history_executes_to_direct_rows (σ : Leaves) (s : SqlState) (st : S
   have B := sql_build_invariant σ st eng hk bld r hok h
   rw [sqlRun_sound_good σ s st r out b B.good hready hrun]
   exact B.sem_eq
+
+/-- **From factory calls to database rows.**  For every construction history inside one SQL engine whose LEAF tables
+hold the leaves' rows: the rows the database returns for the tree the factories built are the direct evaluation of the
+operation sequence - values, multiplicity, order.  The only condition on the conformed tree is the decidable check. -/
+theorem sql_history_executes_to_direct_rows_of_faithful_leaves (σ : Leaves) (s : SqlState) (st : Store) (eng : Engine)
+    (hk : eng.kind = .sql) (bld : SqlBuild) (r : Rel) (out : EvalOut) (b : Bool) (hok : bld.ok σ)
+    (h0 : s.payload 0 = none) (hl : bld.LeavesOK (payInv s s.tables σ h0) eng) (h : bld.tree st eng = .ok r)
+    (hready : ∀ c, conform st defaultFuel r = .ok c → (c.get r).structReady s = true)
+    (hrun : sqlRun s st r = .inr (out, b)) : out.rows = bld.direct σ :=
+  sql_history_run_sound σ s st eng hk bld r out b hok h0 hl h hready hrun
 
 /-- A table holding the rows of a relation is a faithful payload for it. -/
 theorem table_payload_is_faithful (tables : List (List Row)) (name : String) (uid idx : Nat) (cols : Cols)
@@ -201,6 +225,43 @@ example : ∀ c, conform [] defaultFuel r0 = .ok c →
     rw [this] at hp; injection hp with hp; subst hp
     exact tablePayload_paySem s0.tables "L" 1 0 [ta, tb] (σ0 1) rfl rows1
   · have : s0.payload 2 = some (tablePayload "M" 2 1 [ta, tc]) := rfl
+    rw [this] at hp; injection hp with hp; subst hp
+    exact tablePayload_paySem s0.tables "M" 2 1 [ta, tc] (σ0 2) rfl rows2
+
+/-- a RAW tree over the two tables: a selection over their join -/
+private def leafL : Rel := .leaf 1 e0 [ta, tb] "L" 0 none true 0
+private def leafM : Rel := .leaf 2 e0 [ta, tc] "M" 0 none true 0
+private def rawJ : Rel :=
+  .unary (.sel (.fn .gt [.ref tc, .lit 0] none)) (.binary (.join ⟨.lit true, [ta], some [ta]⟩) leafL leafM [ta, tb, tc]) [ta, tb, tc]
+/-- every hypothesis of `to_executable_returns_reference_rows_of_faithful_input` is met ... -/
+example : rawJ.WF ∧ rawJ.Truthful σ0 ∧ rawJ.RawSql ∧ rawJ.Faithful s0 s0.tables σ0 ∧ s0.payload 0 = none := by
+  refine ⟨⟨⟨trivial, trivial, by decide, by decide, by decide⟩, by decide, by decide⟩,
+    ⟨⟨rows1, Nat.zero_le _, fun m hm => by cases hm⟩, ⟨rows2, Nat.zero_le _, fun m hm => by cases hm⟩⟩,
+    ⟨rfl, rfl, by decide, rfl⟩, ⟨?_, ?_⟩, rfl⟩
+  · intro p hp
+    have : s0.payload 1 = some (tablePayload "L" 1 0 [ta, tb]) := rfl
+    rw [this] at hp; injection hp with hp; subst hp
+    exact tablePayload_paySem s0.tables "L" 1 0 [ta, tb] (σ0 1) rfl rows1
+  · intro p hp
+    have : s0.payload 2 = some (tablePayload "M" 2 1 [ta, tc]) := rfl
+    rw [this] at hp; injection hp with hp; subst hp
+    exact tablePayload_paySem s0.tables "M" 2 1 [ta, tc] (σ0 2) rfl rows2
+/-- ... the conformed tree passes the decidable check, and the query returns the joined row -/
+example : ((conform [] defaultFuel rawJ).toOption.map (fun c => (c.get rawJ).structReady s0)) = some true := by
+  decide +kernel
+example : (match sqlRun s0 [] rawJ with
+    | .inr (out, _) => out.rows.map (fun r => [r ta, r tb, r tc])
+    | .inl _ => []) = [[some 1, some 5, some 7]] := by decide +kernel
+
+/-- the leaves of the history `h0` hold faithful tables in `s0` -/
+example : h0.LeavesOK (payInv s0 s0.tables σ0 rfl) e0 := by
+  refine ⟨?_, ?_⟩
+  · intro _ p hp
+    have : s0.payload 1 = some (tablePayload "L" 1 0 [ta, tb]) := rfl
+    rw [this] at hp; injection hp with hp; subst hp
+    exact tablePayload_paySem s0.tables "L" 1 0 [ta, tb] (σ0 1) rfl rows1
+  · intro _ p hp
+    have : s0.payload 2 = some (tablePayload "M" 2 1 [ta, tc]) := rfl
     rw [this] at hp; injection hp with hp; subst hp
     exact tablePayload_paySem s0.tables "M" 2 1 [ta, tc] (σ0 2) rfl rows2
 
